@@ -48,9 +48,11 @@ func init() {
 		Technique: "bounded exhaustive enumeration of regex-schema texts over a 17-byte alphabet, judged by a delimiter reference + Go regexp",
 		Rule: "every string of <= N bytes over {/ \\ a ( ) [ ] * + ? . | { } 1 ^ $} plus the empty text; accepted ones are additionally used as user type @r against 8 candidate instance strings; " +
 			"non-trivial = texts that the reference accepts (delimited, compilable pattern)",
-		Bounds:  func(tier string) map[string]any { return map[string]any{"max_bytes": c18N(tier), "instances": c18Instances} },
-		Run:     c18Run,
-		Replay:  func(w *core.W, v *core.Violation) { c18Case(w, inputBytes(v), "replay") },
+		Bounds: func(tier string) map[string]any {
+			return map[string]any{"max_bytes": c18N(tier), "instances": c18Instances}
+		},
+		Run:    c18Run,
+		Replay: func(w *core.W, v *core.Violation) { c18Case(w, inputBytes(v), "replay") },
 		Assumptions: []string{
 			"Go regexp is the reference for 'valid regular expression' and for matching",
 			"'Example() is matched by the pattern' is demanded only for patterns that some string of <=3 characters over {a 1 / ( ) [ .} matches (unsatisfiable patterns carry no claim)",
